@@ -25,6 +25,7 @@ def run(prog, chk):
     errors(prog, chk)
     accumulator(prog, chk)
     from props import geomalg
+    geomalg.check_sites(prog, chk, "C12")
     geomalg.check(prog, chk, "C12", floor=17)
 
 
